@@ -503,6 +503,18 @@ def innermost_xsdata_frame(tb):
     return last
 
 
+_documented = []
+
+
+def documented_classes():
+    """The library's documented parsing / conversion / context errors (subclasses count)."""
+    if not _documented:
+        from xsdata import exceptions as X
+
+        _documented.extend(getattr(X, n) for n in DOCUMENTED if hasattr(X, n))
+    return tuple(_documented)
+
+
 def make_decoder(case, context):
     from sim import ops as O
     from xsdata.formats.dataclass import parsers
@@ -594,8 +606,9 @@ def run_case(case, context, meter, base_steps):
         steps = meter.stop()
         name = type(e).__name__
         mod = type(e).__module__
-        if mod == "xsdata.exceptions" and name in DOCUMENTED:
-            out["outcome"] = "documented:" + name
+        if isinstance(e, documented_classes()):
+            base = next(c.__name__ for c in documented_classes() if isinstance(e, c))
+            out["outcome"] = "documented:" + base
             out["frame"] = innermost_xsdata_frame(e.__traceback__)
         else:
             out["outcome"] = "leak"
